@@ -43,11 +43,16 @@ Definition show_view (v : view) : string :=
   jlist [jstr (w_file v); jstr (w_path v); jstr (w_title v); jstr (w_background v); jstr (w_color v);
          jstr (w_icon v); jbool (w_run_bg v); jbool (w_running v)].
 
+Definition bits (l : list bool) : string :=
+  fold_right (fun (b : bool) acc => String (if b then "1" else "0")%char acc) EmptyString l.
+
+(* per step: effects, running flags of the listed scripts (in the order of the static
+   list printed once per case), whether the request must yield a page *)
 Definition show_obs (o : spec_obs) : string :=
-  jlist [show_effects (so_effects o); jlist (map show_view (so_views o)); jbool (so_must_render o)].
+  jlist [show_effects (so_effects o); jstr (bits (map w_running (so_views o))); jbool (so_must_render o)].
 
 Definition spec_case (m : manifest) (evs : list event) : string :=
-  jlist (map show_obs (spec_run m evs)).
+  jlist [jlist (map show_view (spec_views m jc_empty)); jlist (map show_obs (spec_run m evs))].
 
 (* html.escape / the documented title and path derivation on plain strings *)
 Definition escape_cases (l : list string) : string := jlist (map (fun s => jstr (html_escape s)) l).
